@@ -16,20 +16,25 @@ import sys
 import time
 
 VERIF = os.path.dirname(os.path.dirname(os.path.abspath(__file__)))
-REPO = "/repo"
+# FV_SCRATCH=<dir> (see tools/mutant.sh): run against a scratch copy <dir>/repo of feos with a scratch harness,
+# scratch cargo target and scratch outputs, leaving /repo, coq/gen, evidence/ and replays/ untouched.
+SCRATCH = os.environ.get("FV_SCRATCH")
+REPO = os.path.join(SCRATCH, "repo") if SCRATCH else "/repo"
 COQ = os.path.join(VERIF, "coq")
 THEORIES = os.path.join(COQ, "theories")
 PROPS = os.path.join(COQ, "props")
-GEN = os.path.join(COQ, "gen")
-HARNESS = os.path.join(VERIF, "harness")
-TARGET = os.path.join(VERIF, "build", "cargo-target")
-LOGS = os.path.join(VERIF, "build", "logs")
-EVIDENCE = os.path.join(VERIF, "evidence")
-REPLAYS = os.path.join(VERIF, "replays")
+GEN = os.path.join(SCRATCH, "gen") if SCRATCH else os.path.join(COQ, "gen")
+HARNESS = os.path.join(SCRATCH, "harness") if SCRATCH else os.path.join(VERIF, "harness")
+TARGET = os.path.join(SCRATCH, "target") if SCRATCH else os.path.join(VERIF, "build", "cargo-target")
+LOGS = os.path.join(SCRATCH, "logs") if SCRATCH else os.path.join(VERIF, "build", "logs")
+EVIDENCE = os.path.join(SCRATCH, "evidence") if SCRATCH else os.path.join(VERIF, "evidence")
+REPLAYS = os.path.join(SCRATCH, "replays") if SCRATCH else os.path.join(VERIF, "replays")
 KNOWN = os.path.join(VERIF, "known_findings.json")
 NPROC = os.cpu_count() or 8
 
-ENV = dict(os.environ, CARGO_NET_OFFLINE="true")
+ENV = dict(os.environ, CARGO_NET_OFFLINE="true", FV_REPO=REPO)
+if SCRATCH:
+    ENV["CARGO_TARGET_DIR"] = TARGET
 
 # axioms declared by the standard library / Flocq / Interval that theorems here may depend on
 AXIOM_ALLOW = {
@@ -503,14 +508,14 @@ def report_known(ctx, entry):
 def violation(ctx, what, replay, found_input=True):
     """record a violation: writes the replay file and prints the VIOLATION line"""
     n = len(ctx.violations) + 1
-    path = os.path.join("replays", "%s-%d.json" % (ctx.id, n))
+    path = os.path.join(os.path.relpath(REPLAYS, VERIF) if not SCRATCH else REPLAYS, "%s-%d.json" % (ctx.id, n))
     replay = dict(replay)
     replay.setdefault("property", ctx.id)
     replay.setdefault("what", what)
     replay.setdefault("tier", ctx.tier)
     replay.setdefault("seed", ctx.seed)
     replay["failing_input_found"] = bool(found_input)
-    with open(os.path.join(VERIF, path), "w") as f:
+    with open(os.path.join(VERIF, path), "w") as f:   # (an absolute `path` wins in os.path.join)
         json.dump(replay, f, indent=1, default=str)
     line = "VIOLATION property=%s replay=%s" % (ctx.id, path)
     if not found_input:
